@@ -632,7 +632,7 @@ def core_runs(ctx, nprogs, per_prog, gen, nws):
     for pi in range(nprogs):
         for j in range(per_prog):
             nw = nws[(pi + j) % len(nws)]
-            strat = ('random', 'random', 'pct', 'rr')[(pi + j) % 4] if nw > 1 else 'random'
+            strat = ('random', 'delay', 'pct', 'rr', 'delay', 'random')[(pi * 5 + j) % 6] if nw > 1 else 'random'
             runs.append((pi, nw, rng.randrange(1, 10 ** 6), strat))
     return progs, runs
 
